@@ -11,3 +11,4 @@
 #include "env/libc_fmt.h"
 #define XV_AP_ADDR
 #include "contracts/addrpub.h"
+#include "_havoc.h"
